@@ -30,6 +30,14 @@ var solvers = []solverDef{
 	{"z3-4.8.12", func(f string, t int) []string { return []string{"z3", fmt.Sprintf("-T:%d", t), f} }},
 }
 
+// integer-encoding back ends (lia.go): only an unsat answer is meaningful
+var liaSolvers = []solverDef{
+	{"z3-5.1.0/int", func(f string, t int) []string { return []string{"z3-new", fmt.Sprintf("-T:%d", t), f} }},
+	{"cvc5-1.0/int", func(f string, t int) []string {
+		return []string{"cvc5", "--lang=smt2", fmt.Sprintf("--tlimit=%d", t*1000), f}
+	}},
+}
+
 type solveOpts struct {
 	timeoutS int
 	agree    int // number of solvers that must say unsat (1 quick, 2 thorough)
@@ -38,17 +46,202 @@ type solveOpts struct {
 	keep     bool
 }
 
-func (x *Exec) script(o *Oblig, queries []*Term) string {
+// simplifyUnder simplifies hypothesis h propositionally, given literals known true (the
+// conjuncts of the obligation's path condition).  Returns nil when h is trivially true.
+func (x *Exec) simplifyUnder(h *Term, lits map[int]bool) *Term {
 	tb := x.tb
-	s := tb.NewScript()
+	known := func(t *Term) int { // 1 true, -1 false, 0 unknown
+		if lits[t.id] {
+			return 1
+		}
+		if t.Op == "not" && lits[t.Args[0].id] {
+			return -1
+		}
+		if n := tb.Not(t); lits[n.id] {
+			return -1
+		}
+		if t.Op == "and" {
+			all := true
+			for _, c := range t.Args {
+				switch {
+				case lits[c.id]:
+				case c.Op == "not" && lits[c.Args[0].id], lits[tb.Not(c).id]:
+					return -1
+				default:
+					all = false
+				}
+			}
+			if all {
+				return 1
+			}
+		}
+		if t.Op == "not" && t.Args[0].Op == "and" {
+			all := true
+			for _, c := range t.Args[0].Args {
+				switch {
+				case lits[c.id]:
+				case c.Op == "not" && lits[c.Args[0].id], lits[tb.Not(c).id]:
+					return 1
+				default:
+					all = false
+				}
+			}
+			if all {
+				return -1
+			}
+		}
+		return 0
+	}
+	if k := known(h); k == 1 {
+		return nil
+	}
+	if h.Op != "or" {
+		return h
+	}
+	var rest []*Term
+	for _, d := range h.Args {
+		switch known(d) {
+		case 1:
+			return nil
+		case -1:
+		default:
+			rest = append(rest, d)
+		}
+	}
+	return tb.Or(rest...)
+}
+
+// hypotheses returns the facts and assumptions of obligation o, simplified under its path
+// condition: literals of the path condition are replaced by true everywhere (which also
+// collapses conditional definitions ite(c, t, v) and read-over-write chains).
+func (x *Exec) hypotheses(o *Oblig) []*Term {
+	hyps, _ := x.hypothesesAndGoal(o)
+	return hyps
+}
+
+func (x *Exec) hypothesesAndGoal(o *Oblig) ([]*Term, *Term) {
+	tb := x.tb
+	lits := map[int]bool{}
+	nlits := map[int]bool{}
+	for _, c := range conjuncts(o.PC, nil) {
+		lits[c.id] = true
+		if c.Op == "not" {
+			nlits[c.Args[0].id] = true
+		} else {
+			nlits[tb.Not(c).id] = true
+		}
+	}
+	memo := map[int]*Term{}
+	var out []*Term
+	seen := map[int]bool{}
+	add := func(h *Term) {
+		r := tb.RewriteUnder(h, lits, nlits, memo)
+		for _, c := range conjuncts(r, nil) {
+			if c.IsTrue() || seen[c.id] {
+				continue
+			}
+			seen[c.id] = true
+			out = append(out, c)
+		}
+	}
 	for _, f := range x.facts {
-		s.Assert(f)
+		add(f)
 	}
 	for _, h := range x.assumes[:o.NHyps] {
-		s.Assert(h)
+		add(h)
 	}
-	for _, e := range o.Extra {
-		s.Assert(e)
+	for _, h := range o.Extra {
+		add(h)
+	}
+	goal := o.Goal
+	if !o.ExpectSat {
+		goal = tb.RewriteUnder(o.Goal, lits, nlits, memo)
+	}
+	return out, goal
+}
+
+func termSyms(t *Term, into map[string]bool, seen map[int]bool) {
+	var st []*Term
+	st = append(st, t)
+	for len(st) > 0 {
+		t := st[len(st)-1]
+		st = st[:len(st)-1]
+		if seen[t.id] {
+			continue
+		}
+		seen[t.id] = true
+		switch t.Op {
+		case "var":
+			into[t.Name] = true
+		case "uf":
+			into[t.Name] = true
+		}
+		st = append(st, t.Args...)
+	}
+}
+
+// relevant selects hypotheses connected to the goal through non-ubiquitous symbols
+// (`rounds` rounds of closure; a symbol is ubiquitous when it occurs in more than
+// 1/denom of the hypotheses).  Any subset is sound: it can only make proving harder.
+func (x *Exec) relevant(o *Oblig, hyps []*Term, rounds, denom int) []*Term {
+	n := len(hyps)
+	syms := make([]map[string]bool, n)
+	freq := map[string]int{}
+	for i, h := range hyps {
+		syms[i] = map[string]bool{}
+		termSyms(h, syms[i], map[int]bool{})
+		for s := range syms[i] {
+			freq[s]++
+		}
+	}
+	cur := map[string]bool{}
+	seen := map[int]bool{}
+	termSyms(o.Goal, cur, seen)
+	termSyms(o.PC, cur, seen)
+	picked := make([]bool, n)
+	for round := 0; round < rounds; round++ {
+		add := map[string]bool{}
+		for i := range hyps {
+			if picked[i] {
+				continue
+			}
+			for s := range syms[i] {
+				if cur[s] && freq[s]*denom <= n+denom {
+					picked[i] = true
+					break
+				}
+			}
+			if picked[i] {
+				for s := range syms[i] {
+					add[s] = true
+				}
+			}
+		}
+		for s := range add {
+			cur[s] = true
+		}
+	}
+	var out []*Term
+	for i, h := range hyps {
+		if picked[i] || len(syms[i]) <= 1 {
+			out = append(out, h)
+		}
+	}
+	return out
+}
+
+func (x *Exec) script(o *Oblig, queries []*Term) string {
+	hyps, goal := x.hypothesesAndGoal(o)
+	o2 := *o
+	o2.Goal = goal
+	return x.scriptWith(&o2, queries, hyps)
+}
+
+func (x *Exec) scriptWith(o *Oblig, queries []*Term, hyps []*Term) string {
+	tb := x.tb
+	s := tb.NewScript()
+	for _, h := range hyps {
+		s.Assert(h)
 	}
 	s.Assert(o.PC)
 	if !o.ExpectSat {
@@ -113,13 +306,30 @@ func runSolver(ctx context.Context, sd solverDef, file string, timeoutS int) sol
 }
 
 // solveOne races the solvers on one script.
-func solveOne(file string, so solveOpts, expectSat bool) (status, solver string, secs float64, output string, agreeing []string) {
+func solveOne(file string, so solveOpts, expectSat bool, liaFile ...string) (status, solver string, secs float64, output string, agreeing []string) {
 	ctx, cancel := context.WithCancel(context.Background())
 	defer cancel()
-	ch := make(chan solverAnswer, len(solvers))
+	total := len(solvers)
+	ch := make(chan solverAnswer, len(solvers)+len(liaSolvers))
 	for _, sd := range solvers {
 		sd := sd
 		go func() { ch <- runSolver(ctx, sd, file, so.timeoutS) }()
+	}
+	if len(liaFile) > 0 && liaFile[0] != "" && !expectSat {
+		for _, sd := range liaSolvers {
+			sd := sd
+			total++
+			go func() {
+				a := runSolver(ctx, sd, liaFile[0], so.timeoutS)
+				if a.status != "unsat" {
+					a.status = "unknown" // sat on the abstraction means nothing
+					if len(a.out) > 200 {
+						a.out = a.out[:200]
+					}
+				}
+				ch <- a
+			}()
+		}
 	}
 	need := so.agree
 	if expectSat {
@@ -128,7 +338,7 @@ func solveOne(file string, so solveOpts, expectSat bool) (status, solver string,
 	var unknowns []string
 	var errs []string
 	t0 := time.Now()
-	for i := 0; i < len(solvers); i++ {
+	for i := 0; i < total; i++ {
 		a := <-ch
 		switch a.status {
 		case "sat":
@@ -166,8 +376,71 @@ func firstLine(s string) string {
 }
 
 type job struct {
-	x *Exec
-	o *Oblig
+	x      *Exec
+	o      *Oblig
+	parent *Oblig // case of a path-condition split
+}
+
+// dnf expands a path condition into at most limit conjunctive cases (nil when it would
+// need more).
+func (x *Exec) dnf(t *Term, limit int) []*Term {
+	tb := x.tb
+	var rec func(t *Term) []*Term
+	fail := false
+	rec = func(t *Term) []*Term {
+		if fail {
+			return nil
+		}
+		switch t.Op {
+		case "or":
+			var out []*Term
+			for _, a := range t.Args {
+				out = append(out, rec(a)...)
+				if len(out) > limit {
+					fail = true
+					return nil
+				}
+			}
+			return out
+		case "and":
+			cur := []*Term{tb.True}
+			for _, a := range t.Args {
+				if a.Op != "or" && a.Op != "and" {
+					for i := range cur {
+						cur[i] = tb.And(cur[i], a)
+					}
+					continue
+				}
+				sub := rec(a)
+				var next []*Term
+				for _, c := range cur {
+					for _, s := range sub {
+						if n := tb.And(c, s); !n.IsFalse() {
+							next = append(next, n)
+						}
+					}
+				}
+				if len(next) > limit {
+					fail = true
+					return nil
+				}
+				cur = next
+			}
+			return cur
+		}
+		return []*Term{t}
+	}
+	out := rec(t)
+	if fail {
+		return nil
+	}
+	var res []*Term
+	for _, c := range out {
+		if !c.IsFalse() {
+			res = append(res, c)
+		}
+	}
+	return res
 }
 
 // SolveAll discharges the obligations of all units in parallel.
@@ -178,19 +451,61 @@ func SolveAll(units []*UnitResult, so solveOpts) {
 			if o.Trivial {
 				continue
 			}
-			jobs = append(jobs, job{u.exec, o})
+			if !o.ExpectSat && (o.PC.Op == "or" || o.PC.Op == "and") {
+				if cases := u.exec.dnf(o.PC, 24); len(cases) > 1 {
+					for k, c := range cases {
+						sub := *o
+						sub.PC = c
+						sub.Name = fmt.Sprintf("%s/case%d", o.Name, k)
+						sub.Status, sub.Solver, sub.Seconds = "", "", 0
+						jobs = append(jobs, job{u.exec, &sub, o})
+					}
+					o.Status = "split"
+					continue
+				}
+			}
+			jobs = append(jobs, job{u.exec, o, nil})
 		}
 	}
 	// scripts must be rendered sequentially per Exec (term tables are not concurrency safe)
 	files := make([]string, len(jobs))
+	lias := make([]string, len(jobs))
+	small := make([][]string, len(jobs))
 	for i, j := range jobs {
+		hyps, goal := j.x.hypothesesAndGoal(j.o)
+		og := *j.o
+		og.Goal = goal
+		if goal.IsTrue() && !j.o.ExpectSat {
+			j.o.Status, j.o.Solver = "unsat", "simplifier"
+			continue
+		}
 		f := filepath.Join(so.tmp, fmt.Sprintf("o%05d.smt2", i))
-		if err := os.WriteFile(f, []byte(j.x.script(j.o, nil)), 0o644); err != nil {
+		if err := os.WriteFile(f, []byte(j.x.scriptWith(&og, nil, hyps)), 0o644); err != nil {
 			j.o.Status = "error"
 			j.o.Output = err.Error()
 			continue
 		}
 		files[i] = f
+		if !j.o.ExpectSat {
+			fl := filepath.Join(so.tmp, fmt.Sprintf("o%05d_int.smt2", i))
+			if os.WriteFile(fl, []byte(j.x.scriptLIA(&og, hyps)), 0o644) == nil {
+				lias[i] = fl
+			}
+		}
+		if !j.o.ExpectSat && len(hyps) > 12 {
+			prev := 0
+			for k, cfg := range [][2]int{{1, 6}, {2, 4}} {
+				rel := j.x.relevant(&og, hyps, cfg[0], cfg[1])
+				if len(rel) == prev || len(rel)*5 > len(hyps)*4 {
+					continue
+				}
+				prev = len(rel)
+				fs := filepath.Join(so.tmp, fmt.Sprintf("o%05d_rel%d.smt2", i, k))
+				if os.WriteFile(fs, []byte(j.x.scriptWith(&og, nil, rel)), 0o644) == nil {
+					small[i] = append(small[i], fs)
+				}
+			}
+		}
 	}
 	var wg sync.WaitGroup
 	sem := make(chan struct{}, so.jobs)
@@ -204,14 +519,110 @@ func SolveAll(units []*UnitResult, so solveOpts) {
 			defer wg.Done()
 			defer func() { <-sem }()
 			o := jobs[i].o
-			st, sv, secs, out, _ := solveOne(files[i], so, o.ExpectSat)
-			o.Status, o.Solver, o.Seconds, o.Output = st, sv, secs, out
-			if !so.keep {
+			// stage A: everything, short timeout
+			cleanup := func() {
+				if so.keep {
+					return
+				}
+				for _, f := range small[i] {
+					os.Remove(f)
+				}
 				os.Remove(files[i])
+				if lias[i] != "" {
+					os.Remove(lias[i])
+				}
 			}
+			// stage 0: one solver, two seconds (most obligations are easy)
+			if so.agree <= 1 {
+				a := runSolver(context.Background(), solvers[0], files[i], 2)
+				o.Seconds += a.secs
+				if a.status == "unsat" || a.status == "sat" {
+					o.Status, o.Solver, o.Output = a.status, a.solver, a.out
+					cleanup()
+					return
+				}
+			}
+			if so.timeoutS > 10 && !o.ExpectSat {
+				soA := so
+				soA.timeoutS = 10
+				st, sv, secs, out, _ := solveOne(files[i], soA, false, lias[i])
+				o.Seconds += secs
+				if st == "unsat" || st == "sat" {
+					o.Status, o.Solver, o.Output = st, sv, out
+					cleanup()
+					return
+				}
+				// stage B: subsets of the hypotheses (only an unsat answer counts)
+				for _, fs := range small[i] {
+					so1 := so
+					so1.timeoutS = 8
+					st, sv, secs, _, _ := solveOne(fs, so1, false)
+					o.Seconds += secs
+					if st == "unsat" {
+						o.Status, o.Solver, o.Output = st, sv, ""
+						o.Sliced = true
+						cleanup()
+						return
+					}
+				}
+			}
+			defer cleanup()
+			st, sv, secs, out, _ := solveOne(files[i], so, o.ExpectSat, lias[i])
+			o.Status, o.Solver, o.Output = st, sv, out
+			o.Seconds += secs
 		}(i)
 	}
 	wg.Wait()
+	// combine path-condition cases
+	type agg struct {
+		n, unsat int
+		sat      *Oblig
+		worst    *Oblig
+		secs     float64
+		solvers  map[string]bool
+	}
+	aggs := map[*Oblig]*agg{}
+	for _, j := range jobs {
+		if j.parent == nil {
+			continue
+		}
+		a := aggs[j.parent]
+		if a == nil {
+			a = &agg{solvers: map[string]bool{}}
+			aggs[j.parent] = a
+		}
+		a.n++
+		a.secs += j.o.Seconds
+		switch j.o.Status {
+		case "unsat":
+			a.unsat++
+			a.solvers[j.o.Solver] = true
+		case "sat":
+			if a.sat == nil {
+				a.sat = j.o
+			}
+		default:
+			a.worst = j.o
+		}
+	}
+	for p, a := range aggs {
+		p.Seconds = a.secs
+		switch {
+		case a.sat != nil:
+			p.Status, p.Solver, p.Output = "sat", a.sat.Solver, a.sat.Output
+			p.PC = a.sat.PC // the failing case: used for the counterexample
+		case a.unsat == a.n:
+			var ss []string
+			for s := range a.solvers {
+				ss = append(ss, s)
+			}
+			sort.Strings(ss)
+			p.Status, p.Solver = "unsat", ss[0]
+			p.Cases = a.n
+		default:
+			p.Status, p.Solver, p.Output = a.worst.Status, "", a.worst.Output
+		}
+	}
 }
 
 // Failed reports whether the obligation counts as not discharged.
